@@ -49,7 +49,7 @@ FAMILIES["stack"] = {
 
 FAMILIES["cow"] = {
     "anchor": "src/cowslice.rs (whole file)",
-    "bound": "buffer length 4, windows (0,4) (1,4) (1,3) (0,2), counts <= 2 (concrete sizes, symbolic contents)",
+    "bound": "buffer length 4; storage situations: fresh (0,4), shared (0,4), shared window (1,3), unique window (1,4), unique inner window (1,3), unique prefix window (0,2); counts <= 2 (concrete sizes, symbolic contents)",
     "header": "use crate::shim::{EcoVec, FillValue};\n",
     "rewrites": (PUBCRATE, ("R4", r"(?m)^//![^\n]*\n", "", "inner doc comment dropped")),
     "dropped": "serde Serialize/Deserialize impls, `use serde::*`, the `cowslice!` macro and its re-export, `use ecow::EcoVec`, `use crate::context::FillValue` (replaced by the shim's model), the three #[test] fns",
